@@ -16,10 +16,11 @@
 
    Both are checked by execution on every correspondence program (Graph.desc_inv_ok after every
    optimiser step; GraphSem.sem_test under two interpretations) -- a test, not a theorem. *)
-From Coq Require Import ZArith QArith Qcanon List String Bool.
+From Coq Require Import ZArith QArith Qcanon List String Bool Permutation.
 Import ListNotations.
 Require Import SC3.model.Graph SC3.model.GraphSem SC3.gen.Gen_opcodes.
 Require Import SC3.proofs.C01_ctor SC3.proofs.C01_misc.
+Require Import SC3.proofs.C01_inv SC3.proofs.C01_inv2 SC3.proofs.C01_inv3 SC3.proofs.C01_pass SC3.proofs.C01_built SC3.proofs.C01_init SC3.proofs.C01_opt SC3.proofs.C01_topo SC3.proofs.C01_topo2 SC3.proofs.C01_compile.
 Open Scope string_scope.
 
 (* Whatever BinaryOpUGen / MulAdd / Sum3 / Sum4 constructors return for arguments that exist in the
@@ -108,6 +109,85 @@ Example every_wellformed_prog_compiles_refuted_with_remove :
   compile T true false false F10 = Err EKey /\ forallb (compiles false false false) [F10; F10_add; F10_lpf] = true.
 Proof. split; [exact (proj1 f10_strict_raises) | exact f10_discard_compiles]. Qed.
 
+(* ---------------------------------------------------------------------------------------------
+   desc_inv.  The code in the working tree is the fixed one (regenerated flags): set.discard in dead code
+   elimination, the liveness guard before re-optimising an input (F21), the `a is b` guard in
+   _optimize_sub (F22).  On a tree where one of them is missing this lemma -- hence everything below --
+   stops checking. *)
+Lemma optimiser_is_the_fixed_code : dce_strict = false /\ dce_guard = true /\ sub_guard = true.
+Proof. repeat split; reflexivity. Qed.
+
+(* The invariant `Inv s D` (proofs/C01_inv.v) says, for the units that are not currently being eliminated
+   (D): the maintained _descendants of every live single-output non-width-first UGen is EXACTLY the set of
+   live units that read it (I_lower + I_upper; for multi-output and width-first units only "contains every
+   live reader", I_lower), units being eliminated have an empty set and no surviving reader, plus the
+   structure this needs (slots, reference sharing between a replaced unit and its replacement, ranks,
+   arities, absence of short-cut constants).  The rewrites consult only sets of single-output arithmetic
+   units (`len(x._descendants) == 1`), dead code elimination only emptiness; both are exact there.
+
+   desc_inv_preserved: for EVERY program of the model's language whose graph function runs, _optimize_graph
+   does not raise; the invariant holds after _init_topo_sort (construction: every _add_ugen), after every
+   atomic step of the pass (mark / discard / remove of dead code elimination incl. its recursion, and each
+   Sum3 / Sum4 / MulAdd / a+(-b) / (-a)+b / a-(-b) rewrite with _replace_ugen and _remove_ugen), and at
+   the end, where the maintained sets are exactly the user sets. *)
+Theorem desc_inv_preserved : forall p s, build_graph C01_built.T p = Ok s ->
+  exists s' ok s0 ante s2,
+    optimize C01_built.T dce_strict dce_guard sub_guard s = Ok (s', ok) /\
+    init_topo s = Ok (s0, ante) /\
+    Inv (with_rewriting s0 true) [] /\ desc_exact (with_rewriting s0 true) /\
+    asteps (with_rewriting s0 true, []) (s2, []) /\
+    (forall x, asteps (with_rewriting s0 true, []) x -> Inv (fst x) (snd x)) /\
+    Inv s2 [] /\ desc_exact s2 /\ Reindexed s2 s'.
+Proof.
+  intros p s H. destruct optimiser_is_the_fixed_code as (-> & -> & ->).
+  pose proof (build_graph_built p s H) as B.
+  destruct (optimize_ok T_plus T_minus s B) as (s' & ok & s0 & ante & s2 & rho & E & E0 & HI1 & T2 & HI2 & HW & R & O).
+  exists s', ok, s0, ante, s2. split; auto. split; auto. split; auto.
+  split; [apply Inv_desc_exact; auto|]. split; auto.
+  split; [intros x Hx; apply (asteps_inv _ _ Hx HI1)|]. split; auto. split; [apply Inv_desc_exact; auto | auto].
+Qed.
+
+(* Well-formed graph function = its constructor calls run without raising (build_graph = Ok) and
+   _check_inputs accepts the optimised graph (no ValueError).  Everything else in SynthDef._build -- the
+   whole optimiser with its recursion and all rewrites, constant collection, the topological sort, the
+   re-indexing -- never raises: every well-formed graph function compiles.  (compile = Ok implies the two
+   hypotheses, so this is an exact characterisation of the programs that compile.) *)
+Definition wellformed (p : prog) : Prop :=
+  exists s1, build_graph C01_built.T p = Ok s1 /\
+    forall s2 ok, optimize C01_built.T dce_strict dce_guard sub_guard s1 = Ok (s2, ok) -> check_inputs s2 = true.
+
+Theorem every_wellformed_prog_compiles : forall p, wellformed p ->
+  exists g, compile C01_built.T dce_strict dce_guard sub_guard p = Ok g.
+Proof.
+  intros p (s1 & Hb & Hc). destruct optimiser_is_the_fixed_code as (E1 & E2 & E3). rewrite E1, E2, E3 in *.
+  destruct (compile_total p s1 Hb Hc) as (g & ok & s2f & s3 & s2 & out & E & _).
+  exists g. unfold compile. rewrite E. reflexivity.
+Qed.
+
+(* _topological_sort (also what C02 asks of the compiler): the children after the sort are a permutation
+   of the units that survived the optimiser, and every unit comes after each of its sources -- the UGens
+   it reads (through output proxies) and its width-first antecedents (every LocalBuf / FFT / RandSeed-like
+   unit created before it). *)
+Theorem topo_sort_correct : forall p s1, build_graph C01_built.T p = Ok s1 ->
+  (forall s2 ok, optimize C01_built.T dce_strict dce_guard sub_guard s1 = Ok (s2, ok) -> check_inputs s2 = true) ->
+  exists g ok s2f s3 out,
+    compile_flag C01_built.T dce_strict dce_guard sub_guard p = Ok (g, ok) /\
+    optimize C01_built.T dce_strict dce_guard sub_guard s1 = Ok (s2f, ok) /\ topological_sort s2f = Ok s3 /\
+    children s3 = map Some out /\ Permutation out (live s2f) /\
+    forall c C x, In c (live s2f) -> get_unit s2f c = Some C ->
+      In x (input_sources s2f C ++ match wfa C with Some l => l | None => [] end) -> Before out x c.
+Proof.
+  intros p s1 Hb Hc. destruct optimiser_is_the_fixed_code as (E1 & E2 & E3). rewrite E1, E2, E3 in *.
+  pose proof (build_graph_built p s1 Hb) as B.
+  destruct (optimize_ok T_plus T_minus s1 B) as (s2f & ok & s0 & ante & s2 & rho & E & E0 & HI1 & T2 & HI2 & HW & R & O).
+  destruct (topological_sort_ok s2f rho O) as (s3 & out & Es & C3 & P3 & B3 & _ & G3).
+  exists (emit s3 (collect_constants s2f)), ok, s2f, s3, out. split.
+  - unfold compile_flag. rewrite Hb. cbn [bind]. rewrite E. cbn [bind]. rewrite (Hc s2f ok E). cbn [negb].
+    rewrite Es. cbn [bind]. reflexivity.
+  - split; auto. split; auto. split; auto. split; auto.
+    intros c C x Lc GC Hx. apply B3; auto. unfold SrcOf. rewrite GC. exact Hx.
+Qed.
+
 (* non-vacuity: the constructors compute, hypotheses are satisfiable *)
 Example shortcut_example :
   let s := match build_graph T (mkP [] [] [IU "Saw" Audio [AC 440]]) with Ok s => s | Err _ => st0 end in
@@ -126,3 +206,6 @@ Print Assumptions opcode_table_matches_server.
 Print Assumptions op_rate_is_max_input_rate.
 Print Assumptions dce_only_pure_unreferenced_partial.
 Print Assumptions every_wellformed_prog_compiles_partial.
+Print Assumptions desc_inv_preserved.
+Print Assumptions every_wellformed_prog_compiles.
+Print Assumptions topo_sort_correct.
